@@ -2,7 +2,8 @@
 
 PROPS = {
     "C08": dict(
-        pkg="c08", race=False, level="exploration",
+        pkg="c08", race=False, level="exploration", prepare="exec_projects",
+        projects_quick=[("core", ["v0", "v1"])], projects_thorough=[("core", ["v0", "v1", "v2", "w2"])],
         claim="property-based round-trip testing of every built-in scalar marshaler/unmarshaler and of FieldSet/Array/Omittable/Response "
               "compositions against an independent strict RFC 8259 parser; hundreds of thousands (quick) to millions (thorough) of "
               "generated, boundary-weighted values",
@@ -278,7 +279,7 @@ PROPS["C07"] = dict(
 PROPS["C12"] = dict(
     env={"VF_SHRINKTIME": "40s"},
     pkg="c12", race=True, level="exploration", prepare="exec_projects",
-    projects_quick=[("core", ["v0"])], projects_thorough=[("core", ["v0", "w2"])],
+    projects_quick=[("core", ["v0", "v1"])], projects_thorough=[("core", ["v0", "v1", "w2"])],
     quick=dict(shards=8, timeout=900), thorough=dict(shards=16, timeout=3000),
     claim="property-based testing of the SSE and multipart/mixed transports over a real TCP connection against a scripted executable "
           "schema: rapid draws payload scripts (1-12 payloads whose strings contain newlines, 'data:', ': ping', the boundary text, 5 kB "
